@@ -50,7 +50,7 @@ CLAIMED = {
          "theorems' hypotheses in Lean on the code's actual propagators / influence tables and compares real Tempo and "
          "compute_dynamics states with the model."),
    ref="§4 C04",
-   note=TB + "positivity is NOT shown (DESIGN §6); PT-TEBD norm / Gibbs normalisation are handled under C10 / C11; "
+   note=TB + "positivity is shown only where every step is of Kraus form (no bath, trivial or ancilla-built process tensors); with a Gaussian bath it is NOT shown (DESIGN §6); PT-TEBD norm / Gibbs normalisation are handled under C10 / C11; "
         "scipy expm/quad outputs are data whose trace/Hermiticity preservation is checked per run, not proved."),
  "C05": dict(
    technique="Lean 4 proof (conjugation algebra on the path sum; gauge invariance by induction) + IsDiagonalisation predicate evaluated in Lean on the Bath's real output",
@@ -163,10 +163,11 @@ ADDED = {
  "C01": " Also: tcut->dkmax (tcut_general, dkmax_tcut); ties include finite-mode baths (commensurate and incommensurate), repeated coupling eigenvalues, rotated bases, both unique settings and continued propagation.",
  "C02": " Also tied each run: Tempo._influence is bit-exactly influence_matrix of the object's own data (wrappers regenerated: nothing kept between requests), additional correlation times that are not multiples of dt beyond the cut-off, non-smooth (pulsed) time-dependent systems, file-backed process tensors with complex transforms, final-state-only recording, long runs beyond the cut-off.",
  "C03": " Also: initial states in every memory layout; process tensors with exactly one transform (transforms_stored_independently); mixed-key control stacks (every control acts) through C18's oracles.",
+ "C04": " Also (positivity sector, Props/C04Pos.lean): every sequence of Kraus-form steps keeps the state of Gram form (positive semidefinite), Hermitian and trace-one (kraus_steps_physical, kraus_prefix_physical, gram_is_physical); the driver evaluates IsKrausStep on every propagator get_propagators returns (Kraus operators from the Choi matrix) and runVec against compute_dynamics without a bath; ancilla-built process tensors (rank-3/rank-4, both classes) are physical including positivity at every step; the generated SystemChain site terms are of GKSL form with a first-order Kraus identity (Props/C10Gksl.lean). Positivity with a non-trivial Gaussian bath stays not shown.",
  "C05": " Also tied: decay channels with complex Lindblad operators under complex basis changes, nearly diagonal coupling operators, PT-TEMPO on the rotated problem.",
  "C08": " Also: which half step's parameters each half-step derivative is computed from is regenerated (derivative_rows_match); mixed parameter tables with M in {2,3}; memo-key completeness; non-Hermitian and callable targets.",
  "C09": " Also: times handed to time-dependent dissipators (plain_dissipator_times, diss_args_current_time), default arguments regenerated (defaults_agree), stationary fields, unique=True with non-diagonal couplings, initial states in every memory layout.",
- "C10": " Also: every gate of a layer acts on its own bond (gate_on_own_bond); a site gate applies C, not its transpose (site_gate_applies_matrix); ChainControl runs with non-symmetric maps; inspection between steps.",
+ "C10": " Also: every gate of a layer acts on its own bond (gate_on_own_bond); a site gate applies C, not its transpose (site_gate_applies_matrix); ChainControl runs with non-symmetric maps; inspection between steps; the generated site Liouvillian is exactly of GKSL form and its Euler step a two-operator Kraus map up to one t^2 term (site_dissipation_is_gksl, site_hamiltonian_is_commutator, site_liouvillian_first_order_kraus).",
  "C11": " Also: the projection onto distinct coupling eigenvalues sums each class (unique_sums_class); repeated eigenvalues, zero and identity coupling operators; repeated compute().",
  "C12": " Also: scale covariance in the time unit (1e-9..1e6) and coupling covariance (alpha down to 1e-6) at full relative strength (these exposed and now guard the repaired defects 68dc845, 86fb9c2); the quadrature variable and epsabs are regenerated (quadrature_variable); memo passes its arguments unchanged; cells straddling the diagonal, rectangles narrower than delta, tiling identities; Matsubara offset triangles.",
  "C14": " Also: the rollback restores exactly the snapshot (exact flag), both memory regimes; results are read between the calls; a faulted call raises under every progress type; GibbsTempo/PtTempo repeated compute.",
